@@ -1376,6 +1376,9 @@ class VF:
         if T.is_app(t, 'range'):
             lo, hi = t[2]
             return Seq(T.sub(hi, lo), lambda i: T.add(lo, i), 'range', src=t)
+        if T.is_app(t, 'adt:std::ops::RangeFrom') and len(t[2]) == 1 and T.is_app(t[2][0], 'f:start'):
+            lo = t[2][0][2][0]
+            return Seq(T.sym('inf'), lambda i: T.add(lo, i), 'range_from', src=t)      # `lo..`: unbounded counter
         if T.is_app(t, 'comp'):
             n, lam = t[2]
             return Seq(n, lambda i: inst_comp(t, i), 'comp', src=t)
